@@ -27,6 +27,14 @@ def run_stream(ctx, tag, env_extra, cwd):
 def run(args):
     ctx = Ctx("C12", args.tier, args.seed)
     ctx.assumptions += ["only the Cargo.toml dependency section has a model; every other output (generated Rust, diagnostics and their order, formatter output, multi-file project trees) is compared byte-for-byte (hash) across processes, environments and repeated in-process runs"]
+    # the manifest model imports the crate table that is regenerated from the source (translator of C15)
+    try:
+        from .c15 import extract_crate_table, regenerate_crate_table, PROJECT_RS
+        regenerate_crate_table(extract_crate_table(open(PROJECT_RS).read()))
+    except Exception as e:  # noqa: BLE001
+        ob = Obligation("correspondence", "model crate table regenerated from add_rust_crate")
+        ob.ok, ob.detail = False, f"translator refused the source shape: {e}"
+        ctx.obligations.append(ob)
     ctx.proof_stage("IncanModel.Props.C12")
     ok, out = ctx.build_harness()
     failures = []
